@@ -497,6 +497,14 @@ class C04(runner.Check):
               st = snap['studies'].get(c['study'])
               if st and isinstance(st['trials'], dict) and c['trial'] in st['trials']:
                 id_reused = True
+          # ... or the re-created trial is gone again by the end of the batch: look at the datastore
+          # calls themselves - a create_trial of a name that a delete_trial of this batch had removed
+          deleted = set()
+          for what, name in s.name_events:
+            if what == 'delete_trial':
+              deleted.add(name)
+            elif name in deleted:
+              id_reused = True
         for oname, o in snap['ops'].items():
           if not o['done']:
             viol.append(('unfinished-operation', f'{oname} left done=False by the batch'))
